@@ -294,18 +294,17 @@ Record ckpt := mkC { c_ops : list (list op); c_panic : bool; c_len : N;
 (* c_model = false: too big for the (unary-position) executable model; only the oracle judges it *)
 Record case := mk { c_model : bool; c_ckpts : list ckpt }.
 
-(* the property, per key, against the insertion log.  Codes:
-   2 lookup does not yield exactly the inserted entries   3 get is not one of them
+(* the property, per key, against the insertion log, in the exact order that is proved
+   (C56_refines_multimap): lookups newest first, get = the newest entry.  Codes:
+   2 lookup does not yield exactly the inserted entries (newest first)
+   3 get is not the newest entry for the id (nil iff none)
    4 first index is not the position of the first insertion (it moved)
-   5 iteration does not yield every entry once   6 panic   7 len wrong *)
+   5 iteration does not yield every entry once, in insertion order   6 panic   7 len wrong *)
 Definition key_ok (l : alog) (k : kobs) : nat :=
   match k_vals k, k_get k, k_first k with
   | Some vs, Some g, Some f =>
-      if negb (msetb val_eqb vs (vals_of l (k_id k))) then 2
-      else if negb (match g with
-                    | None => match vals_of l (k_id k) with [] => true | _ => false end
-                    | Some v => memb val_eqb v (vals_of l (k_id k))
-                    end) then 3
+      if negb (list_eqb val_eqb vs (rev (vals_of l (k_id k)))) then 2
+      else if negb (option_eqb val_eqb g (hd_error (rev (vals_of l (k_id k))))) then 3
       else if negb (Z.eqb f (spec_first l (k_id k))) then 4
       else 0
   | _, _, _ => 6
@@ -321,7 +320,7 @@ Definition ckpt_ok (l : alog) (c : ckpt) : nat :=
   | IPanic => 6
   | ISkip => first_bad (key_ok l) (c_keys c)
   | IList it =>
-      if negb (msetb pair_eqb (concat it) l) then 5
+      if negb (list_eqb pair_eqb (concat it) l) then 5
       else first_bad (key_ok l) (c_keys c)
   end.
 
